@@ -4,7 +4,7 @@
   router.replay <tok>*      replay a linearised history; every action must be enabled
       tokens:  pub | up | sel:0|1 | td:e | jn:e | ls | le | ah | cn:i
                b:i:s|f|a|c | p:i | g:i | r:i | wc:i | w:i:0|1 | ii:i | d:i:r|t|c|x | di:i | dr:i | q:i:r|c|x
-               dn:e:0|1 | rv:e:D:fid:sb:fn:w | rv:e:C:fid:sb:st | rv:e:R:fid:sb:reason | rv:e:B:fid
+               dn:e:0|1 | rv:e:D:fid:sb:fn:w | rv:e:C:fid:sb:st | rv:e:R:fid:sb:reason | rv:e:B:fid | rv:e:F:fid (foreign-session data frame)
                snap            (not an action: emits a metrics snapshot at this point)
       answer:  ok|disabled@k|bad-token@k  M=sent,recv,inflight,err,drop,asyncErr,retry  REG=n
                O=i>outcome,...  W=sock>src>sb,...  H=fid>n,...  D=fid>recipient,...  S=snapshots;..  P=failed-predicates
@@ -60,6 +60,7 @@ def parseTok (t : String) : Option Cmd :=
   | ["rv", e, "C", fid, sb, st] => do pure (.act (.recv (← nat? e) (.ctrlRsp (← nat? fid) (← nat? sb) (← nat? st))))
   | ["rv", e, "R", fid, sb, r] => do pure (.act (.recv (← nat? e) (.reject (← nat? fid) (← nat? sb) (← nat? r))))
   | ["rv", e, "B", fid] => do pure (.act (.recv (← nat? e) (.bad (← nat? fid))))
+  | ["rv", e, "F", fid] => do pure (.act (.recv (← nat? e) (.foreign (← nat? fid))))
   | _ => none
 
 def showOutcome : Outcome → String
@@ -84,6 +85,7 @@ def showRecipient : Recipient → String
   | .notSelected => "notsel"
   | .orphanCtrl => "orphanctrl"
   | .orphanReject => "orphanrej"
+  | .foreignSession => "foreign"
   | .malformed => "bad"
 
 def showMetrics (m : Metrics) : String :=
